@@ -12,5 +12,5 @@ CONSTANTS
   TMaxRank = 3
   TMaxCore = 8
   TModeDotSize = 8
-  Thin = 4
+  Thin = 6
 INVARIANT TSpecOK
